@@ -219,3 +219,9 @@ m("C11-revert-D22-no-restore-in-update-attrs", "C11", "actions/update_node_attrs
   "            for attr, value in self.prev_attrs.items():\n                self._set(attr, value)\n            raise", "            raise")
 m("C14-load-memory-maps-the-saved-segmentation", "C14", "import_export/internal_format.py",
   "        return np.load(seg_file)", "        return np.load(seg_file, mmap_mode=\"r+\")")
+m("C15-revert-D25-track-id-column-by-literal-name", "C15", "import_export/csv/_export.py",
+  "            if feature_name == tracks.features.tracklet_key:\n", "            if False:\n")
+m("C15-revert-D26-zero-rows-no-header", "C15", "import_export/csv/_export.py",
+  "    df = pd.DataFrame(rows, columns=header)\n", "    df = pd.DataFrame(rows)\n    df = df[header]\n")
+m("C14-revert-D26-zero-rows-no-header", "C14", "import_export/csv/_export.py",
+  "    df = pd.DataFrame(rows, columns=header)\n", "    df = pd.DataFrame(rows)\n    df = df[header]\n")
